@@ -391,6 +391,14 @@ def diff_run(sc, harness, driver, gen_args, nshards, seed, fields=None, exec_arg
         # the executor echoes every op as "> op" annotated with the environment answers it saw;
         # those annotated ops are what the model is run on
         ann = [l[2:] for l in impl_out.split("\n") if l.startswith("> ")]
+        n_ops = sum(1 for l in ops_text.split("\n") if l)
+        if len(ann) != n_ops:
+            # an executor that stopped before the end of its input says nothing about the code under test
+            # (seen once on a starved machine): run the shard once more in a fresh process and judge that run;
+            # if it stops early again it is reported below as before
+            log("note: %s shard %s stopped after %d of %d ops (rc=%s); re-running the shard once" % (harness, i, len(ann), n_ops, rc))
+            rc, impl_out, impl_err = exec_ops(exe, ops_text, timeout=timeout, args=exec_args)
+            ann = [l[2:] for l in impl_out.split("\n") if l.startswith("> ")]
         impl_out = "\n".join(l for l in impl_out.split("\n") if not l.startswith("> "))
         ann_text = "\n".join(ann) + "\n"
         mrc, model_out, model_err = model_ops(driver, ann_text, timeout=timeout)
